@@ -256,8 +256,13 @@ PURE_CALLS = set(
 )
 PURE_METHODS = set(
     "upper lower replace format join items keys values get split strip lstrip rstrip startswith endswith title "
-    "capitalize copy index count".split()
+    "capitalize copy index count fromkeys rsplit partition rpartition splitlines zfill ljust rjust center swapcase "
+    "casefold find rfind isdigit isalpha isalnum isupper islower isspace union intersection difference "
+    "symmetric_difference issubset issuperset isdisjoint".split()
 )
+# standard modules whose functions build values and touch no process state, apart from the listed ones
+PURE_MODULES = {"re", "operator", "functools", "itertools", "collections", "math", "string", "bisect", "copy", "fractions", "numbers", "textwrap"}
+IMPURE_EXT = {"re.purge", "functools.lru_cache", "functools.cache", "functools.cached_property", "functools.singledispatch"}
 
 
 PURE_EXT_CALLS = {
@@ -284,6 +289,8 @@ def impure(ctx, m, expr):
                     return "%s(), which has side effects (%s)" % (f.id, effs[0].what)
                 if r is not None and r[0] == "ext" and r[1] in ("collections.OrderedDict", "ordereddict.OrderedDict", "decimal.Decimal"):
                     continue
+                if r is not None and r[0] == "ext" and r[1].split(".")[0] in PURE_MODULES and r[1] not in IMPURE_EXT:
+                    continue
                 return "a call of %s" % f.id
             if isinstance(f, ast.Attribute):
                 if f.attr in PURE_METHODS:
@@ -298,6 +305,8 @@ def impure(ctx, m, expr):
                     elif m.imports.get(f.value.id, (None,))[0] == "module":
                         dotted = "%s.%s" % (m.imports[f.value.id][1], f.attr)
                     if dotted in PURE_EXT_CALLS:
+                        continue
+                    if dotted is not None and dotted.split(".")[0] in PURE_MODULES and dotted not in IMPURE_EXT:
                         continue
                 return "a call of .%s()" % f.attr
             return "a computed call"
